@@ -66,10 +66,10 @@ def rnd_frame(rng, big=False):
 
 def events(ctx):
     rng = ctx.rng
-    for _ in range(ctx.q(8000, 400000)):
+    for _ in range(ctx.q(20000, 1000000)):
         yield record("uslp.hdr.rt", {"h": rnd_hdr(rng, bad=rng.random() < 0.1), "sfx": [rng.randrange(256)] * rng.choice([0, 0, 5])})
     from ..ops_uslp import mk_frame, _ftype
-    for _ in range(ctx.q(5000, 150000)):
+    for _ in range(ctx.q(12000, 400000)):
         f, ftype = rnd_frame(rng, ctx.thorough)
         yield record("uslp.frame.rt", {"f": f, "ftype": ftype})
         if rng.random() < 0.6:
